@@ -99,7 +99,7 @@ def build_model():
         if rc != 0:
             raise BuildBroken("extraction", out[-4000:])
     if not os.path.exists(drv) or os.path.getmtime(drv) < newest_mtime([ml, os.path.join(OCAML, "driver.ml")]):
-        rc, out = sh("ocamlfind ocamlopt -O2 -package zarith -linkpkg qco_model.mli qco_model.ml driver.ml -o driver",
+        rc, out = sh("ocamlfind ocamlopt -O2 -package zarith,unix -linkpkg qco_model.mli qco_model.ml driver.ml -o driver",
                      cwd=OCAML, timeout=600)
         if rc != 0 or not os.path.exists(drv):
             raise BuildBroken("ocaml", out[-4000:])
@@ -122,11 +122,12 @@ def harness_bin(release=False):
 MODEL_BIN = os.path.join(OCAML, "driver")
 
 
-def _run_lines(binary, lines, timeout):
+def _run_lines(binary, lines, timeout, line_timeout=None):
     if not lines:
         return []
+    env = ENV if line_timeout is None else dict(ENV, VERIF_MODEL_LINE_TIMEOUT=str(line_timeout))
     p = subprocess.run(["bash", "-c", "ulimit -s unlimited 2>/dev/null; exec " + binary], input="\n".join(lines) + "\n", stdout=subprocess.PIPE,
-                       stderr=subprocess.PIPE, text=True, timeout=timeout, env=ENV)
+                       stderr=subprocess.PIPE, text=True, timeout=timeout, env=env)
     out = p.stdout.split("\n")
     if out and out[-1] == "":
         out.pop()
@@ -135,11 +136,11 @@ def _run_lines(binary, lines, timeout):
         k = len(out)
         out = out + ["crash rc=%s %s" % (p.returncode, p.stderr.strip()[-200:].replace("\n", " "))]
         if k + 1 < len(lines):
-            out = out + _run_lines(binary, lines[k + 1:], timeout)
+            out = out + _run_lines(binary, lines[k + 1:], timeout, line_timeout)
     return out
 
 
-def run_many(binary, lines, shards=NPROC, timeout=1800):
+def run_many(binary, lines, shards=NPROC, timeout=1800, line_timeout=None):
     """Run command lines through `binary`, sharded over processes, preserving order."""
     n = len(lines)
     if n == 0:
@@ -148,7 +149,7 @@ def run_many(binary, lines, shards=NPROC, timeout=1800):
     # round-robin shards: expensive neighbours (mutants of one file) spread over all processes
     parts = [lines[i::shards] for i in range(shards)]
     with ThreadPoolExecutor(max_workers=len(parts)) as ex:
-        res = list(ex.map(lambda part: _run_lines(binary, part, timeout), parts))
+        res = list(ex.map(lambda part: _run_lines(binary, part, timeout, line_timeout), parts))
     out = [None] * n
     for i, part in enumerate(res):
         out[i::shards] = part
